@@ -400,8 +400,8 @@ def flatHolds (st : St) : List (Nat × HoldS) :=
 
 def initSt (bpm0 : Rat) : St := ⟨[⟨bpm0, defMet, ⟨0, 0, some defMet⟩⟩], fun _ => ⟨[], []⟩⟩
 
-/-- `_read_notes` after the line loop -/
-def finishRead (g : Array Rat) (st : St) : Except Err (List HitOut × List HoldOut × List BcOff × List BcSnap) := do
+/-- `_read_notes` after the line loop, up to the timed hits and holds: `(hits, holds, timing map, tempo list)` -/
+def timedNotes (g : Array Rat) (st : St) : Except Err (List HitOut × List HoldOut × List BcOff × List BcSnap) := do
   let cs := sortBcSnap (dropOverridden st.bcsRev.reverse)
   let tm ← liftT (fromBcSnap 0 cs false)
   let hs := flatHits st
@@ -411,6 +411,11 @@ def finishRead (g : Array Rat) (st : St) : Except Err (List HitOut × List HoldO
   let headOff ← if ls.isEmpty then pure [] else liftT (offsets g tm (ls.map (·.2.head.snap)))
   let tailOff ← if ls.isEmpty then pure [] else liftT (offsets g tm (ls.map (·.2.tail)))
   let holds := (ls.zip (headOff.zip tailOff)).map (fun p => (⟨p.1.1, p.1.2.head.sample, p.2.1, p.2.2 - p.2.1⟩ : HoldOut))
+  .ok (hits, holds, tm, cs)
+
+/-- `_read_notes` after the line loop: the timed notes, then `tm.reseat()` for the tempo list -/
+def finishRead (g : Array Rat) (st : St) : Except Err (List HitOut × List HoldOut × List BcOff × List BcSnap) := do
+  let (hits, holds, tm, cs) ← timedNotes g st
   let (bco, bcs) ← liftT (bcsOfBco g tm)
   let t0 := (bco.head?.map (·.offset)).getD 0
   let tm2 ← liftT (fromBcSnap t0 bcs true)
